@@ -23,7 +23,16 @@ CHECK = Check(
           "explicit sign, -0, +5, malformed spellings; for float elements the greatest float32/float64, the rounding "
           "boundaries to infinity and to zero, subnormals, integers beyond 2^24/2^53; and typed integer sources of every width "
           "holding kmin/kmax of their kind. Stream c03b: the sweep on twelve own units B<kind> struct{F k; P *k; S []k; "
-          "M map[string]k}, one per integer and float kind (the shared quick units hold the representative kinds only)."),
+          "M map[string]k}, one per integer and float kind (the shared quick units hold the representative kinds only). "
+          "Histories (stream c03, tag hist; Gen/GenC03h.v, Model/SetHist.v): 2-4 calls on ONE object sharing ONE inspector.ByteBuffer - a zero buffer, "
+          "NewByteBuffer(n) with spare capacity for all / some / none of the conversions, a buffer somebody used before (whose "
+          "earlier hand-outs must stay intact), a used buffer after Reset; all calls buffered, buffered and plain Set "
+          "alternating, none buffered - assigning scalars (int, uint, float, bool; value and pointer form) and now and then "
+          "text to DIFFERENT string / []byte elements (fields, pointer fields, map values existing or created by the call, "
+          "slice elements, nested), a numeric element in between. Per history one `sethist` line per prefix (error + dump "
+          "of the whole object after its last call; spec = the exact object while the text fixes every call so far) and one "
+          "`sethistframe` line (after EVERY call: off the call's path - the texts of the earlier calls included - the object "
+          "is what it was right before that call, and no memory it referenced was written; spec = frame=1,...,1)."),
     assumptions=["assigned values: scalars, strings, non-nil []byte in value and pointer form; pointers to containers (the "
                  "value.(*T) replacement branch) are outside the modelled domain and never generated",
                  "rendered floats stay inside the exact-decimal domain; empty text is never assigned into a []byte element",
@@ -37,8 +46,11 @@ MANIFEST = {
     "text": ("Rocq model of the code emitted by writeNode in set mode (structural recursion on the node tree, threading the new "
              "value of what each Go variable designates and whether the emitted write-back is reached) with theorems by "
              "induction on the node: frame condition for all paths and values, set-then-get for resolving leaf paths, no panic; "
-             "refutations for the shapes that still lose updates. Correspondence: the extracted model predicts the whole object "
-             "after every generated Set call; the frame condition is also decided natively on the real objects."),
+             "refutations for the shapes that still lose updates; the same for HISTORIES of calls on one object (a call keeps the "
+             "object well-typed, so every call of a history meets the demand on the object the earlier calls left; on the "
+             "buffer's side no sequence of buffered conversions rewrites a text handed out earlier). Correspondence: the extracted model predicts the whole object "
+             "after every generated Set call and after every call of the generated histories (one shared ByteBuffer); the frame "
+             "condition is also decided natively on the real objects, after every call."),
     "note": ("Trusted: Coq kernel, extraction, Go harness (reflection value builder, native off-path comparison), Go compiler. "
              "The leaf conversion is a small own model of AssignBuf on the generated source domain. No axioms."),
     "technique": "Rocq proof by induction on the type tree + extracted-model correspondence on generated inspectors",
